@@ -92,6 +92,58 @@ def ofrOfUnrepaired (cfg : Cfg) (obj : J) : OFR :=
       | none => .nil
       | some f => .other ((f.evalLegacy obj).getD .null) }
 
+/-! ## The input of the jq program
+
+`applyFilter` calls `fl.ApplyFilterValue(jqFilter, obj.UnstructuredContent())`; `run` (pkg/filter/jq/apply.go)
+does not hand the object itself to gojq (gojq normalises numbers in place) but `deepCopy(data)` =
+`json.Unmarshal(json.Marshal(data))`: the value rebuilt node by node. -/
+
+mutual
+/-- `deepCopy`: a structural copy of the value (every member of every object, every element). -/
+def copyJ : J → J
+  | .null => .null
+  | .bool b => .bool b
+  | .num n => .num n
+  | .str s => .str s
+  | .arr xs => .arr (copyList xs)
+  | .obj kvs => .obj (copyKvs kvs)
+def copyList : List J → List J
+  | [] => []
+  | x :: xs => copyJ x :: copyList xs
+def copyKvs : List (String × J) → List (String × J)
+  | [] => []
+  | (k, v) :: kvs => (k, copyJ v) :: copyKvs kvs
+end
+
+/-- `ApplyFilterValue` as `run` executes it: the program runs on the private copy of the object. -/
+def applyFilterValue (f : Prog) (obj : J) : Option J := f.eval (copyJ obj)
+
+/-- What `applyFilter` + `RemoveFullObject` store, with the call chain into the jq package written out
+(`ofrOf` is the same with the program applied to the object directly; `ofrOfRun_eq`). -/
+def ofrOfRun (cfg : Cfg) (obj : J) : OFR :=
+  { jqSet := cfg.filter.isSome
+    removed := !cfg.keep
+    object := if cfg.keep then some obj else none
+    fr := match cfg.filter with
+      | none => .nil
+      | some f => let v := (applyFilterValue f obj).getD .null; .str false (.str v.print) (some v) }
+
+def dropKey (k : String) : J → J
+  | .obj kvs => .obj (kvs.filter (fun kv => kv.1 ≠ k))
+  | j => j
+
+/-- Seeded variant (C09-w6m3): the private copy leaves out `metadata.managedFields` ("the biggest part of
+an object, do not serialize it") — the stored and rendered object keeps it. -/
+def copySlim : J → J
+  | .obj kvs => .obj (kvs.map (fun kv => if kv.1 = "metadata" then (kv.1, dropKey "managedFields" (copyJ kv.2)) else (kv.1, copyJ kv.2)))
+  | j => copyJ j
+
+def ofrOfSlim (cfg : Cfg) (obj : J) : OFR :=
+  { ofrOf cfg obj with
+    fr := match cfg.filter with
+      | none => .nil
+      | some f => let v := (f.eval (copySlim obj)).getD .null; .str false (.str v.print) (some v) }
+
 /-! ## BindingContext -/
 
 inductive BType where
@@ -394,6 +446,15 @@ def ObjView.json (o : ObjView) : J := J.mkObj o.fields
 def viewOf (b : KBinding) (obj : J) : ObjView :=
   { object := if b.cfg.keep then some obj else none
     filterResult := b.cfg.filter.map (fun f => (f.eval obj).getD .null) }
+
+/-- The clause "`filterResult` equal to the jq result for that very object", for one element the
+implementation showed together with its full object (the Event item, an element of `objects`, an element
+of a snapshot): `shown` is the `filterResult` printed next to `obj` (`none`: the key is absent), `filter`
+the jqFilter of the kubernetes binding the element is seen through. Only what is shown and the
+configuration: no cluster state, no cache. A filter that fails on the object (only a Deleted event
+survives that) shows `null`. -/
+def filterResultClause (filter : Option Prog) (obj : J) (shown : Option J) : Bool :=
+  shown == filter.map (fun f => (f.eval obj).getD .null)
 
 /-- The snapshot of a binding: the objects of its namespace, ordered by name. -/
 def snapshotView (cl : Cluster) (b : KBinding) : List ObjView :=
